@@ -21,7 +21,8 @@ def load_job(job_path: Path, discard_id=True):
 
 
 def fix_deprecated(workpath: Path, fix: bool, cleanup: bool):
-    jobspath = workpath / "jobs"
+    # Absolute path: the symbolic links point to the job directories
+    jobspath = (workpath / "jobs").resolve()
     logger.info("Looking for deprecated jobs in %s", jobspath)
 
     if cleanup:
